@@ -18,6 +18,24 @@ FIRST_ROUND_MISSES = {
  "C17-3": "missed: ranks were always stored as int64 -> 40% of cases store ranks as float64 (also C03)",
  "C18-2": "missed: generator seeds never included 0 -> seeds drawn from {0, 1, random}",
 }
+SECOND_ROUND_MISSES = {
+ "C01-6": "missed: profile VIEW objects were recreated per call -> view objects persist across calls and are refilled in place (`common.persist`, `gslib` views)",
+ "C02-5": "missed: arguments were refilled before every call -> 30% of calls are preceded by a call in the other orientation on the very same argument objects",
+ "C02-6": "missed: capacities started at 1 -> 8% of the brute-force instances have a hospital without seats (model and code agree there; outside C01's and the theorems' positive-capacity domain, compared anyway)",
+ "C03-4": "missed (the flow change is caught by C08's own check): random marriage instances almost never produce N-shaped rotation posets -> the closed-subset stage is driven directly on random posets (`irv_closedsub` op, brute-force optimum over all closed subsets)",
+ "C03-5": "caught by thorough only -> stage-wise mirror comparison (rotations, poset, closed subset) also in the quick tier for n <= 8, 450 random instances",
+ "C04-6": "missed (quick and thorough): utilities were all of magnitude ~1 and the tolerance had an absolute floor -> 20% of matrices rescaled (2^-70 .. 1e9), tolerance relative to the largest utility",
+ "C07-5": "missed: a fresh rule object per lottery -> rule objects live for the whole worker batch, 40% of lotteries preceded by a draw for the same profile at other speeds",
+ "C07-6": "caught by thorough only -> 400 eating lotteries (n <= 6) in the quick tier instead of 110 (n <= 5)",
+ "C10-4": "missed: ranks were always int64 -> the storage type of the ranks is chosen from the content (int64 / int32 / int16 / int8 / float64)",
+ "C10-6": "missed: a fresh rule object per election -> one rule object per configuration for the life of the worker process, used on elections of different sizes",
+ "C11-4": "missed: m stopped at 8 -> elections with m in {25, 30, 40} and n in {50, 75, 120} (also C12)",
+ "C11-6": "caught by thorough only -> persistent profile objects refilled in place + persistent rule objects (`common.persist`)",
+ "C13-4": "missed: as C11-6; same-shaped elections are now adjacent in a batch so that the persistent objects are refilled between consecutive calls",
+ "C13-6": "missed: the eating lottery was run on complete profiles only -> incomplete square profiles in both index conventions",
+ "C16-6": "missed: valuations were always float64 -> the distortion helper is also called on integer valuations stored as int8 / uint8 / int16 / int32 / int64 (values up to 120, so column sums exceed the storage type)",
+ "C20-4": "missed: random serial dictatorship was only run on square profiles -> rectangular complete profiles (more agents than items and vice versa); arrays that are NOT valid profiles must be rejected alike in every storage type",
+}
 rows = []
 for d in sorted(glob.glob(os.path.join(VERIF, "seeded", "C*-*"))):
     m = json.load(open(os.path.join(d, "meta.json")))
@@ -32,7 +50,14 @@ for d in sorted(glob.glob(os.path.join(VERIF, "seeded", "C*-*"))):
     needs = (m.get("needs") or "").replace("|", "/").replace("\n", " ")
     if len(needs) > 160:
         needs = needs[:157] + "..."
-    rows.append(f"| {mid} | {summ} | {needs} | {now} | {FIRST_ROUND_MISSES.get(mid, 'caught by quick')} |")
-print("| id | change | needs | caught now by | first round |")
-print("|---|---|---|---|---|")
+    if m.get("round", 1) == 2:
+        fe = m.get("first_evaluation") or {}
+        fq = (fe.get("caught_by_quick") or m["caught_by_quick"]).get(p)
+        fa = (fe.get("caught_by_any_tier") or m["caught_by_any_tier"]).get(p)
+        first = SECOND_ROUND_MISSES.get(mid) or ("caught by quick" if fq else ("caught by thorough only" if fa else "missed"))
+    else:
+        first = FIRST_ROUND_MISSES.get(mid, "caught by quick")
+    rows.append(f"| {mid} | {m.get('round', 1)} | {summ} | {needs} | {now} | {first} |")
+print("| id | round | change | needs | caught now by | when first evaluated |")
+print("|---|---|---|---|---|---|")
 print("\n".join(rows))
